@@ -3,6 +3,7 @@ package dawn
 import (
 	"bytes"
 	"strings"
+	"sync"
 
 	"github.com/pgavlin/dawn/label"
 )
@@ -11,6 +12,9 @@ type lineWriter struct {
 	label  *label.Label
 	events Events
 
+	// m guards line: a target's standard output and standard error are this one writer, and the processes of one shell
+	// command (a pipeline, a background job) each have their own goroutine copying into it.
+	m    sync.Mutex
 	line strings.Builder
 }
 
@@ -19,6 +23,9 @@ func newLineWriter(label *label.Label, events Events) *lineWriter {
 }
 
 func (l *lineWriter) Write(b []byte) (int, error) {
+	l.m.Lock()
+	defer l.m.Unlock()
+
 	w := 0
 	for len(b) > 0 {
 		newline := bytes.IndexByte(b, '\n')
@@ -41,6 +48,9 @@ func (l *lineWriter) Write(b []byte) (int, error) {
 }
 
 func (l *lineWriter) Flush() error {
+	l.m.Lock()
+	defer l.m.Unlock()
+
 	if l.line.Len() != 0 {
 		l.events.Print(l.label, l.line.String())
 		l.line.Reset()
